@@ -175,6 +175,13 @@ def run(ctx, R):
     # to max(block, scc_block), so a stale scc_block sends the next throwing query to a frame that no longer exists
     touches_cont = any(x["k"] == "Field" and x["name"] == "cont_pts" for x in walk(dh["body"]))
     resets_scc = any(x["k"] == "Assign" and orframe.field_chain(x["lhs"])[-1:] == ["scc_block"] for x in walk(dh["body"]))
+    # ... ALL of them: nested setup_call_cleanup/3 calls leave several entries, so the pop sits in a loop over cont_pts
+    pops_in_loop = any(lp["k"] == "Loop" and any(x["k"] == "MethodCall" and x["name"] == "pop" and any(y.get("k") == "Field" and y.get("name") == "cont_pts" for y in walk(x["recv"])) for x in walk(lp))
+                       for lp in walk(dh["body"])) or \
+        any(x["k"] == "MethodCall" and x["name"] in ("retain", "truncate", "drain") and any(y.get("k") == "Field" and y.get("name") == "cont_pts" for y in walk(x["recv"])) for x in walk(dh["body"]))
+    R.ob("C28:drop:forgets-every-cleanup-block-above-the-stub", pops_in_loop,
+         "Drop removes at most one cont_pts entry: with two nested, still pending setup_call_cleanup/3 calls in an abandoned query the outer entry survives and its cleanup "
+         "runs at the first cut of the next query", F.where(dr))
     R.ob("C28:drop:forgets-cleanup-blocks-of-discarded-frames", touches_cont and resets_scc,
          "Drop must pop the cont_pts entries installed above this query's stub and restore scc_block: after taking one answer of setup_call_cleanup(true, member(X,[1,2,3]), true) "
          "and dropping the iterator, run_query(\"throw(b).\") panics in Stack::index_or_frame", F.where(dr))
